@@ -82,6 +82,10 @@ def discharge(S, ob, leaf_types=None, invariants=None):
     if kind in ("OverflowNeg", "AbsOverflow"):
         x = ob["ops"][0]
         ty = ob.get("ty")
+        if ty is None and x[0] == "icast":
+            ty = x[3]                     # negation of a widened value happens in the wide type
+        if ty is None and x[0] in ("iadd", "isub", "imul", "ineg") and len(x) > 3:
+            ty = x[3]
         if ty is None:
             t = iv.type_of(x)
             ty = t[1] if t and t[0] == "prim" else "i64"
